@@ -15,8 +15,7 @@ ID = "C15"
 LEVEL = "exploration"
 RULE = (
     "(a) Hypothesis: valid RDF 1.1 byte streams - written by pyjelly's rdflib and generic serializers and by the reference "
-    "encoder E with arbitrary producer choices, all physical types, lexical forms pre-canonicalised through rdflib so that "
-    "rdflib's own literal normalisation is not a difference - are parsed by all six entry points: within one integration "
+    "encoder E with arbitrary producer choices (incl. non-canonical lexical forms such as 0^^xsd:boolean), all physical types - are parsed by all six entry points: within one integration "
     "flat == grouped (concatenated) == parse-to-graph; across integrations the results correspond term for term (IRI "
     "string, blank-node label, lexical form, language, datatype, graph name, default graph). (b) the same statement "
     "sequence and the same explicit options are serialised by both integrations through stream_frames (TripleStream, "
@@ -40,7 +39,7 @@ def parse_case(draw):
     which = draw(st.sampled_from(["E", "E", "rdflib_writer", "generic_writer"]))
     if which == "E":
         src = draw(scen.e_case(mode="rdflib", max_len=10))
-        src["statements"] = canon_stmts(src["statements"])
+        # not canonicalised: "01"^^xsd:integer must come back as "01" from both integrations
         src["source"] = "E"
     elif which == "rdflib_writer":
         src = draw(scen.rdflib_write_case(max_len=10))
